@@ -206,13 +206,15 @@ CalRows == {Calendar(3, 2, 5), Calendar(1, 3, 4), Calendar(3, 1, 8) ++ [monday |
 ExcRows == {CalDate(s, D(d), Num(typ)) : s \in {3, 2}, d \in {1, 3, 5, 7}, typ \in {1, 2}} \cup {CalDate(3, D(8), Num(3)), CalDate(4, D(6), Num(0)), CalDate(2, Bad(3), Num(1))}
 TzAgencies == {<<Agency(1, 1, 1), Agency(2, 2, 3)>>, <<Agency(2, 2, 3), Agency(1, 1, 1)>>, <<Agency(1, 1, 4), Agency(2, 2, 5)>>, <<Agency(1, 1, 5)>>,
                <<Agency(3, 7, 1) ++ [agency_url |-> Blank], Agency(2, 2, 3)>>}
+ExcRowsQuick == {CalDate(3, D(1), Num(1)), CalDate(3, D(5), Num(2)), CalDate(3, D(7), Num(1)), CalDate(2, D(3), Num(1)), CalDate(2, D(7), Num(2)),
+                 CalDate(3, D(8), Num(3)), CalDate(4, D(6), Num(0)), CalDate(2, Bad(3), Num(1)), CalDate(3, D(3), Num(2))}
+C11Case(cq, eq) == MkCase(SetRows(SetRows(SetRows(SetRows(BaseFeed, "calendar.txt", cq), "calendar_dates.txt", eq), "agency.txt", <<Agency(2, 2, 3)>>),
+                                  "routes.txt", <<Route(1, 2, 1)>>), FALSE, NoBase, FALSE, "", 0)
+(* z = 1 (quick): <= 1 calendar row x <= 2 exception rows from the small pool, and 2 calendar rows x <= 1 exception row; z = 0: the full product *)
 PoolC11(z) ==
-    {MkCase(SetRows(SetRows(SetRows(SetRows(BaseFeed, "calendar.txt", cq), "calendar_dates.txt", eq), "agency.txt", ag),
-                    "routes.txt", <<Route(1, 2, 1)>>), FALSE, NoBase, FALSE, "", 0)
-        : cq \in SeqsOf(CalRows, 0, 2), eq \in {e \in SeqsOf(ExcRows, 0, 2) : z = 0 \/ Len(e) <= 1}, ag \in {<<Agency(2, 2, 3)>>}}
-    \cup {MkCase(SetRows(SetRows(SetRows(SetRows(BaseFeed, "calendar.txt", cq), "calendar_dates.txt", eq), "agency.txt", <<Agency(2, 2, 3)>>),
-                    "routes.txt", <<Route(1, 2, 1)>>), FALSE, NoBase, FALSE, "", 0)
-        : cq \in SeqsOf(CalRows, 0, 1), eq \in SeqsOf(ExcRows, 2, 2)}
+    (IF z = 0 THEN {C11Case(cq, eq) : cq \in SeqsOf(CalRows, 0, 2), eq \in SeqsOf(ExcRows, 0, 2)}
+     ELSE {C11Case(cq, eq) : cq \in SeqsOf(CalRows, 0, 1), eq \in SeqsOf(ExcRowsQuick, 0, 2)}
+          \cup {C11Case(cq, eq) : cq \in SeqsOf(CalRows, 2, 2), eq \in SeqsOf(ExcRowsQuick, 0, 1)})
     \cup {MkCase(SetRows(BaseFeed, "agency.txt", ag), FALSE, NoBase, FALSE, "", 0) : ag \in TzAgencies}
 PoolC11b(z) ==
     {MkCase(SetRows(SetRows(BaseFeed, "calendar.txt", <<Calendar(3, 3, 5)>>), "calendar_dates.txt", eq), FALSE, NoBase, FALSE, "", 0)
